@@ -71,6 +71,17 @@ func c09FixedCreds() []c09Cred {
 		{"unknown-token", "truncated", true, "Bearer {U-}"},
 		{"unknown-token", "extended", true, "Bearer {U}x"},
 		{"unknown-token", "non-ascii", true, "Bearer tökén"},
+		// never-issued strings built from what a query language, a pattern match or a byte-oriented store might treat
+		// specially (no spaces: the header has exactly two parts); they are unknown tokens like any other
+		{"unknown-token", "quote-or", true, "Bearer x'OR'1'='1"},
+		{"unknown-token", "quote-or-empty", true, "Bearer 'OR''='"},
+		{"unknown-token", "quote-or-column", true, "Bearer 'OR(token)IS(token)OR'"},
+		{"unknown-token", "quote", true, "Bearer '"},
+		{"unknown-token", "valid-then-quote-comment", true, "Bearer {U}'--"},
+		{"unknown-token", "valid-then-dquote", true, "Bearer {U}\""},
+		{"unknown-token", "percent", true, "Bearer %"},
+		{"unknown-token", "underscores", true, "Bearer ________________________________"},
+		{"unknown-token", "valid-then-nul", true, "Bearer {U}\x00"},
 		{"revoked-token", "revoked", true, "Bearer {R}"},
 		{"valid-user-token", "user", true, "Bearer {U}"},
 		{"admin-token", "admin", true, "Bearer {A}"},
@@ -271,7 +282,7 @@ type c09Want struct{ method, pattern, tmpl string }
 func runC09(c *Ctx) error {
 	rng := lib.Rng(c.Seed, "c09")
 	c.R.Rule = "every route of Engine.Routes() (enumerated at run time) x every registered method x credential variants " +
-		"{absent, empty, wrong scheme (7), extra parts (7), unknown token (6), revoked, valid user, admin} + random near-miss mutations of valid headers " +
+		"{absent, empty, wrong scheme (7), extra parts (7), unknown token (15), revoked, valid user, admin} + random near-miss mutations of valid headers " +
 		"(routes outside the prefix: one variant per class), " +
 		"for {metrics off/on} x {use_auth off/on} x {debug_profiling off/on}; requests through Engine.ServeHTTP on the real SQLite stack; " +
 		"a case is non-trivial when use_auth is on and the route lies under /api/v1 (the middleware decides); distinct by (config, method, pattern, header template)"
@@ -577,6 +588,7 @@ func c09RunConfig(c *Ctx, l *lib.Lean, rng *rand.Rand, k c09Cfg, nmut int, wants
 				Op:  lines[i] + "  # header " + fmt.Sprintf("%q", s.hdr), Impl: s.impl, Model: model})
 		}
 	}
+	c09RawBytes(c, rig, k, toks)
 	c09LockedStore(c, rig, dbFile, k, toks)
 	c09Rotation(c, k, dbFile, admin)
 	return nil
